@@ -186,6 +186,15 @@ def halton_generator(args):
                 bad.append(ops.far(rows[i][j], lo + phi * (hi - lo), 1e-9) if not ctx.symbolic else
                            Or(rows[i][j] - (lo + phi * (hi - lo)) > 1e-12 * (hi - lo), (lo + phi * (hi - lo)) - rows[i][j] > 1e-12 * (hi - lo)))
         ctx.check('halton-point-is-scaled-radical-inverse', Or(*bad))
+        g.init(N + 2)             # re-initialised: a longer prefix of the same sequence
+        rows2 = g.generate()
+        ctx.check('halton-after-reinit', len(rows2) != N + 2 or any(len(r) != n for r in rows2))
+        if len(rows2) == N + 2:
+            j = n - 1
+            lo, hi = box[j]
+            phi = float(_radical_inverse(N + 2, primes[j]))
+            ctx.check('halton-after-reinit-last-point', Or(rows2[-1][j] - (lo + phi * (hi - lo)) > 1e-9 * (hi - lo),
+                                                           (lo + phi * (hi - lo)) - rows2[-1][j] > 1e-9 * (hi - lo)))
     return body
 
 
@@ -216,6 +225,18 @@ def grid(args):
             eq = [And(*[eqv(r[j], levels[j][combo[j]], j) for j in range(n)]) for r in rows]
             cnt = ops.Sum([ite(c, 1, 0) for c in eq])
             ctx.check('grid-every-combination-exactly-once', cnt != 1)
+        # multi-step: the same generator object is re-initialised with another level count and with changed bounds
+        k2 = k + 1
+        g.init(k2)
+        lo0, hi0 = box[0]
+        new_hi = hi0 + 1.0
+        params[0]['bounds'][1] = new_hi
+        rows2 = g.generate()
+        ctx.check('grid-after-reinit-row-count', len(rows2) != k2 ** n)
+        if len(rows2) == k2 ** n:
+            ctx.check('grid-after-reinit-uses-new-levels-and-bounds',
+                      Or(Not(Or(*[eqv(r[0], new_hi, 0) for r in rows2])), Not(Or(*[eqv(r[0], lo0, 0) for r in rows2])),
+                         Not(Or(*[eqv(r[0], lo0 + (new_hi - lo0) / (k2 - 1), 0) for r in rows2]))))
     return body
 
 
@@ -233,6 +254,8 @@ def random_generator(args):
         ctx.check('random-count', len(rows) != number)
         ctx.check('random-one-coordinate-per-parameter', any(len(r) != n for r in rows))
         ctx.check('random-in-bounds', Or(*[Or(v < lo - 0.5e-12, v > hi + 0.5e-12) for r in rows for v, (lo, hi) in zip(r, box)]))
+        g.init(number + 1)        # re-initialised: exactly the newly requested number
+        ctx.check('random-count-after-reinit', len(g.generate()) != number + 1)
     return body
 
 
